@@ -81,6 +81,7 @@ class C19(Check):
                 faults.append((j, "garbage", i, "fill" if (j + i) % 2 == 0 else "over"))
                 faults.append((j, "garbage", i, "minus1"))
                 faults.append((j, "garbage", i, "text" if (j + i) % 2 == 0 else "padbits"))
+                faults.append((j, "garbage", i, "inner"))
         n_model, preds, reads = self.model_predictions(counts, nrep, faults)
         if n_model != n_up:
             self.violation({"theorem_or_stream": "correspondence: driver skeleton vs process", "input": {"counts": counts},
